@@ -401,6 +401,8 @@ Definition blame_leaf (e : expr) : nid * cls :=
   | _ => (head_nid e, TypeMismatch)
   end.
 
+Fixpoint args_has_pos (a : args) : bool :=
+  match a with ANil => false | ACons ChPos _ _ => true | ACons _ _ r => args_has_pos r end.
 Definition only_subprograms (bs : list binding) : bool :=
   match bs with
   | [] => false
@@ -517,7 +519,8 @@ with interp_args (G : env) (a : args) {struct a} : res (list (choice * list sty)
       y <- interp_args G r ;;
       Ok ((c, x) :: y)
   end
-(* record aggregate: all positional (in field order) or named (every field exactly once, any order) *)
+(* record aggregate: positional elements (in field order), then named ones (any order), then possibly `others`;
+   every field exactly once *)
 with root_fields (G : env) (i : nid) (all fs : list (ident * sty)) (els : args) {struct els} : res unit :=
   match els with
   | ANil => guard (match fs with [] => true | _ => false end) i Other
@@ -532,11 +535,20 @@ with root_fields (G : env) (i : nid) (all fs : list (ident * sty)) (els : args) 
       match find_field all f with
       | Some x =>
           guard (existsb (fun y => fst y =? o_id f) fs) (o_nid f) Other ;;;
+          guard (negb (args_has_pos r)) (o_nid f) Conservative ;;;      (* no positional element after a named one *)
           root_gen (interp G) (root_fields G) (root_elems G) (blame G) (snd x) e ;;;
           root_fields G i all (filter (fun y => negb (fst y =? o_id f)) fs) r
       | None => Bad (o_nid f) UnknownField
       end
-  | ACons ChOthers e r => Bad (head_nid e) Conservative
+  (* `others` last: the remaining elements (at least one), which must all be of one type *)
+  | ACons ChOthers e ANil =>
+      match fs with
+      | ft :: fs' =>
+          guard (forallb (fun y => sty_eqb (snd y) (snd ft)) fs') (head_nid e) Other ;;;
+          root_gen (interp G) (root_fields G) (root_elems G) (blame G) (snd ft) e
+      | [] => Bad (head_nid e) Other
+      end
+  | ACons ChOthers e _ => Bad (head_nid e) Conservative
   end
 (* array aggregate: exactly len positional elements, or a single `others => e` *)
 with root_elems (G : env) (i : nid) (el : sty) (n : nat) (els : args) {struct els} : res unit :=
